@@ -281,6 +281,9 @@ func runMethods(t *testing.T, sc *scen.Scenario, round string) bool {
 		if m.Pass > 0 {
 			cls = append(cls, "second-call-on-the-same-client")
 		}
+		if m.AfterRefused {
+			cls = append(cls, "call-after-a-refused-call")
+		}
 		if m.Pass == 2 {
 			cls = append(cls, "zero-valued-scalar-arguments")
 		}
